@@ -134,16 +134,18 @@ ATOMIC = r"(?:std::sync::atomic::)?AtomicU64"
 ORD = r"(?:std::sync::atomic::)?Ordering::(?:Relaxed|SeqCst|AcqRel|Acquire|Release)"
 W = r"([A-Za-z_]\w*)"
 
-# (discipline, declaration regex, access regex builder(name) ) — all on the `norm` form, full match.
+# Exact shapes for which the ARITHMETIC of the generator is known too (seed + `Rng` stepping), so that the Lean LCG
+# stream can be compared with the real one.  (discipline, declaration regex, access regexes(name)) on the `norm` form.
+# The discipline itself is decided per item below (`decide_discipline`); these only say whether the stream is predictable.
 SHAPES = [
     ("racy",
      rf"static mut {W}:Rng=Rng::from_seed\({INT}\);",
      lambda n: [rf"unsafe\{{{n}\.next_raw\(\)as Priority\}}"]),
     ("threadLocal",
-     rf"thread_local!\{{static {W}:{CELL}<Rng>=(?:const\{{)?{CELL}::new\(Rng::from_seed\({INT}\)\)\}}?;?\}}",
+     rf"static {W}:{CELL}<Rng>=(?:const\{{)?{CELL}::new\(Rng::from_seed\({INT}\)\)\}}?;?",
      lambda n: [rf"{n}\.with\(\|{W}\|\{{let mut {W}=\1\.get\(\);let {W}=\2\.next_raw\(\)as Priority;\1\.set\(\2\);\3\}}\)"]),
     ("threadLocal",
-     rf"thread_local!\{{static {W}:{REFCELL}<Rng>=(?:const\{{)?{REFCELL}::new\(Rng::from_seed\({INT}\)\)\}}?;?\}}",
+     rf"static {W}:{REFCELL}<Rng>=(?:const\{{)?{REFCELL}::new\(Rng::from_seed\({INT}\)\)\}}?;?",
      lambda n: [rf"{n}\.with\(\|{W}\|\1\.borrow_mut\(\)\.next_raw\(\)as Priority\)"]),
     ("mutex",
      rf"static {W}:{MUTEX}<Rng>={MUTEX}::new\(Rng::from_seed\({INT}\)\);",
@@ -153,126 +155,8 @@ SHAPES = [
     ("atomicRmw",
      rf"static {W}:{ATOMIC}={ATOMIC}::new\({INT}\);",
      lambda n: [rf"let {W}={n}\.fetch_update\({ORD},{ORD},\|{W}\|\{{?Some\(\2\.wrapping_mul\({INT}\)\.wrapping_add\({INT}\)\)\}}?\)\.unwrap\(\);"
-                rf"let mut {W}=Rng::from_seed\(\1\);\5\.next_raw\(\)as Priority"]),
+                rf"(?:let mut {W}=Rng::from_seed\(\1\);\5\.next_raw\(\)as Priority|Rng::from_seed\(\1\)\.next_raw\(\)as Priority)"]),
 ]
-
-# tokens that must not occur anywhere in treap_node.rs unless the generator was classified `racy`
-FORBIDDEN_TOKENS = [r"\bunsafe\b", r"\bstatic mut\b", r"UnsafeCell", r"\*mut\b", r"\*const\b", r"addr_of", r"transmute", r"\bextern\b",
-                    r"no_mangle", r"link_name", r"macro_rules", r"\basm!", r"include!", r"#\[path", r"\bmod\b", r"\bimpl Sync\b", r"\bimpl Send\b",
-                    r"\bunion\b", r"\bas_ptr\b", r"\bNonNull\b", r"\bAtomicPtr\b"]
-ALLOWED_USES = {
-    "use rlib_rand::Rng;", "use std::cell::Cell;", "use std::cell::RefCell;", "use std::sync::Mutex;",
-    "use std::sync::atomic::{AtomicU64,Ordering};", "use std::sync::atomic::{Ordering,AtomicU64};",
-    "use std::sync::atomic::AtomicU64;", "use std::sync::atomic::Ordering;",
-}
-
-
-def use_ok(u):
-    """whitelisted, or an import that cannot bring in or rename anything the classification looks at"""
-    n = norm(u)
-    if n in {norm(x) for x in ALLOWED_USES}:
-        return True
-    if re.search(r"\bas\b", u) or "*" in u:
-        return False
-    return not re.search(r"\b(Rng|Priority|gen_priority|cell|Cell|RefCell|UnsafeCell|sync|Mutex|RwLock|Atomic\w*|Ordering|ptr|mem|ffi|alloc|"
-                         r"intrinsics|arch|thread|LocalKey|Once\w*|Lazy\w*|rlib_rand)\b", n)
-
-
-def classify_treap_node(src):
-    """-> (info dict, problems).  info: discipline, declaration, access, seed, bits, name"""
-    problems = []
-    info = {"discipline": "unknown", "declaration": "", "access": "", "seed": None, "bits": None}
-    code = strip_cfg_test_mods(blank_strings(strip_rust_comments(src)))
-    a = code.find("pub trait TreapItemSized")
-    b = code.find("pub struct TreapNode<T>")
-    if a < 0 or b < 0 or b < a:
-        return info, ["treap_node.rs: anchors `pub trait TreapItemSized` / `pub struct TreapNode<T>` not found"]
-    a_open = code.find("{", a)
-    a_end = match_brace(code, a_open) if a_open >= 0 else -1
-    if a_end < 0 or a_end > b:
-        return info, ["treap_node.rs: cannot delimit the generator region"]
-    region = code[a_end:b]
-    info["region_text"] = region
-    rest = code[:a_end] + "\n" + code[b:]
-
-    # -- the region: `type Priority = uN;`, optional attributes, `fn gen_priority`, and the declaration
-    m = re.findall(r"\btype\s+Priority\s*=\s*u(8|16|32|64)\s*;", region)
-    if len(m) != 1:
-        problems.append("treap_node.rs: `type Priority = uN;` not found exactly once next to the generator")
-    else:
-        info["bits"] = int(m[0])
-    region2 = re.sub(r"\btype\s+Priority\s*=\s*u(8|16|32|64)\s*;", " ", region)
-    region2 = re.sub(r"#\[(?:allow\([\w,\s]*\)|inline(?:\(\w+\))?|must_use|cold)\]", " ", region2)
-    region2 = re.sub(r"\bpub(?:\((?:crate|super|self)\))?\s+(?=fn\s+gen_priority\b)", "", region2)
-    fm = re.search(r"\bfn\s+gen_priority\s*\(\s*\)\s*->\s*Priority\s*\{", region2)
-    if not fm:
-        problems.append("treap_node.rs: `fn gen_priority() -> Priority` not found next to the generator declaration")
-        return info, problems
-    f_end = match_brace(region2, fm.end() - 1)
-    if f_end < 0:
-        problems.append("treap_node.rs: unbalanced braces in gen_priority")
-        return info, problems
-    body = norm(region2[fm.end():f_end - 1])
-    decl = norm(region2[:fm.start()] + " " + region2[f_end:])
-    info["declaration"] = decl
-    info["access"] = body
-
-    found = None
-    for disc, drx, accs in SHAPES:
-        dm = re.fullmatch(drx, decl)
-        if not dm:
-            continue
-        name = dm.group(1)
-        for arx in accs(re.escape(name)):
-            am = re.fullmatch(arx, body)
-            if am:
-                found = (disc, dm, am)
-                break
-        if found:
-            break
-        problems.append(f"treap_node.rs: declaration looks like `{disc}` but the access in gen_priority is not a recognised shape: {body[:160]}")
-    if not found:
-        if not problems:
-            problems.append(f"treap_node.rs: generator declaration is not a recognised shape: {decl[:200]}")
-        disc = "unknown"
-    else:
-        disc, dm, am = found
-        try:
-            info["seed"] = parse_int(dm.group(2))
-        except ValueError:
-            problems.append("treap_node.rs: seed literal not parsed")
-        if disc == "atomicRmw":
-            info["atomic_a"] = parse_int(am.group(3))
-            info["atomic_c"] = parse_int(am.group(4))
-
-    # -- the rest of the file: the constructor is the only user, nothing else touches generator-like things
-    nrest = norm(rest)
-    if not re.search(r"pub fn new\(item:T\)->Self\{Self\{item,priority:gen_priority\(\),left:None,right:None,?\}\}", nrest):
-        problems.append("treap_node.rs: `TreapNode::new` is no longer `Self { item, priority: gen_priority(), left: None, right: None }`")
-        disc = "unknown" if disc != "racy" else disc
-    if len(re.findall(r"\bgen_priority\b", code)) != 2:
-        problems.append("treap_node.rs: gen_priority is referenced other than by its definition and TreapNode::new")
-        disc = "unknown" if disc != "racy" else disc
-    if not re.search(r"pub priority:Priority,", nrest):
-        problems.append("treap_node.rs: public field `priority: Priority` not found")
-    rest_nouse = re.sub(r"^\s*use\s[^;]*;", "", rest, flags=re.M)
-    for tok in [r"\bstatic\b", r"thread_local", r"\bnext_raw\b", r"\bRng\b", r"\bCell\b", r"\bRefCell\b", r"\bMutex\b", r"\bAtomic\w*"]:
-        if re.search(tok, rest_nouse):
-            problems.append(f"treap_node.rs: `{tok}` occurs outside the generator declaration / gen_priority")
-            disc = "unknown" if disc != "racy" else disc
-    for u in re.findall(r"^\s*(use\s[^;]*;)", code, flags=re.M):
-        if not use_ok(u):
-            problems.append(f"treap_node.rs: unexpected import `{norm(u)}`")
-            disc = "unknown" if disc != "racy" else disc
-    if disc != "racy":
-        for tok in FORBIDDEN_TOKENS:
-            if re.search(tok, code):
-                problems.append(f"treap_node.rs: `{tok}` present although the generator does not look like a plain `static mut` "
-                                f"(classified {disc}) — not recognised, nothing is assumed")
-                disc = "unknown"
-    info["discipline"] = disc
-    return info, problems
-
 
 def blank_strings(code):
     """replace the contents of string and char literals by nothing (keeps the quotes)"""
@@ -309,50 +193,341 @@ def crate_closure(repo, roots=("rlib/treap", "rlib/rand")):
     return seen
 
 
-PLAIN_STATIC = (r"static\s+\w+\s*:\s*(?:&\s*(?:'static\s+)?)?(?:str|bool|char|f32|f64|[ui](?:8|16|32|64|128|size)"
-                r"|\[\s*(?:&\s*(?:'static\s+)?str|bool|char|f32|f64|[ui](?:8|16|32|64|128|size))\s*(?:;\s*[\w\s+*]+)?\])\s*=")
-SHARED_STATE_TOKENS = [
-    (r"(?<!')\bstatic\s+mut\b", "`static mut`"),
-    (r"\bunsafe\b", "`unsafe`"),
+
+# ----------------------------------------------------------------------------------------------
+# items
+# ----------------------------------------------------------------------------------------------
+
+def preprocess(src):
+    return strip_cfg_test_mods(blank_strings(strip_rust_comments(src)))
+
+
+def _skip_ws(code, i):
+    while i < len(code) and code[i].isspace():
+        i += 1
+    return i
+
+
+def _match_any(code, i):
+    """index just after the bracket group ((), [], {}) opening at i"""
+    pairs = {"(": ")", "[": "]", "{": "}"}
+    stack = []
+    for j in range(i, len(code)):
+        c = code[j]
+        if c in pairs:
+            stack.append(pairs[c])
+        elif stack and c == stack[-1]:
+            stack.pop()
+            if not stack:
+                return j + 1
+    return len(code)
+
+
+HEAD_RX = re.compile(r"(?:pub(?:\s*\([^)]*\))?\s+)?(?:default\s+)?"
+                     r"(?:(?P<k1>(?:use|type|mod|struct|enum|union|trait|impl|extern\s+crate)\b|macro_rules\s*!|thread_local\s*!)"
+                     r"|(?P<static>static)\b(?!\s*!)"
+                     r"|(?P<fn>(?:(?:const|async|unsafe|extern(?:\s*\"\")?)\s+)*fn)\b"
+                     r"|(?P<const>const)\b"
+                     r"|(?P<unsafe>unsafe\s+(?:impl|trait|extern))\b"
+                     r"|(?P<extern>extern)\b)")
+
+
+def split_items(code):
+    """top-level items of a file (attributes dropped, inline `mod x { … }` flattened) as dicts kind/name/text"""
+    items, i, n = [], 0, len(code)
+    while True:
+        i = _skip_ws(code, i)
+        if i >= n:
+            break
+        while code.startswith("#", i):          # attributes
+            j = code.find("[", i)
+            if j < 0:
+                break
+            i = _skip_ws(code, _match_any(code, j))
+        m = HEAD_RX.match(code, i)
+        kind = "other"
+        if m:
+            kind = (m.group("k1") or ("static" if m.group("static") else None) or ("fn" if m.group("fn") else None)
+                    or ("const" if m.group("const") else None) or ("unsafe-item" if m.group("unsafe") else None) or "extern")
+            kind = re.sub(r"\s+", "", kind)
+        semi_only = kind in ("use", "type", "static", "const", "externcrate")
+        j, depth = i, 0
+        while j < n:
+            c = code[j]
+            if c in "([{":
+                depth += 1
+            elif c in ")]}":
+                depth -= 1
+                if depth <= 0 and c == "}" and not semi_only:
+                    j += 1
+                    # `macro!{…};` / `struct X{…};`
+                    k = _skip_ws(code, j)
+                    if k < n and code[k] == ";":
+                        j = k + 1
+                    break
+            elif c == ";" and depth == 0:
+                j += 1
+                break
+            j += 1
+        text = code[i:j]
+        i = j
+        if not text.strip():
+            continue
+        mm = re.match(r"(?:pub(?:\s*\([^)]*\))?\s+)?mod\s+(\w+)\s*\{", text)
+        if kind == "mod" and mm:
+            inner = text[mm.end():text.rfind("}")]
+            items.extend(split_items(inner))
+            continue
+        nm = re.search(r"\b(?:fn|struct|enum|union|trait|type|const|static(?:\s+mut)?|mod|macro_rules\s*!)\s+([A-Za-z_]\w*)", text)
+        items.append({"kind": kind, "name": nm.group(1) if nm else "", "text": text})
+    return items
+
+
+PRIM = r"(?:bool|char|f32|f64|[ui](?:8|16|32|64|128|size))"
+PLAIN_TY = rf"(?:&\s*(?:'static\s+)?)?(?:str|{PRIM}|\[\s*(?:&\s*(?:'static\s+)?str|{PRIM})\s*(?:;\s*[\w\s+*]+)?\])"
+STATIC_RX = re.compile(r"(?:pub(?:\s*\([^)]*\))?\s+)?static\s+(mut\s+)?([A-Za-z_]\w*)\s*:\s*(.*?)\s*=\s*(.*?)\s*;?\s*$", re.S)
+WATCHED = r"(?:Cell|RefCell|UnsafeCell|Mutex|RwLock|Atomic\w+|Ordering|OnceLock|OnceCell|LazyLock|LazyCell|thread_local)"
+TOKENS_ANYWHERE = [
     (r"\bUnsafeCell\b|\bSyncUnsafeCell\b", "UnsafeCell"),
     (r"\*\s*mut\b|\*\s*const\b|\bNonNull\b|\bAtomicPtr\b|\baddr_of", "raw pointer"),
     (r"\bimpl\s*(?:<[^>]*>\s*)?(?:Sync|Send)\b", "`impl Sync/Send`"),
     (r"\bextern\b|no_mangle|link_name|\basm!|global_asm!", "extern/asm"),
     (r"\binclude!|#\[path", "code pulled in from another file"),
     (r"\bset_var\b|\bremove_var\b", "process environment written"),
+    (r"\btransmute\b", "transmute"),
 ]
+TL_TY = rf"(?:(?:std|core)::cell::)?(?:Cell|RefCell)<\s*[\w:]+(?:<[\w:,\s]+>)?\s*>"
+AT_TY = r"(?:(?:std|core)::sync::atomic::)?Atomic(?:U64|U32|Usize|U16|U8|I64|I32|Isize|Bool)"
+MX_TY = r"(?:std::sync::)?Mutex<\s*[\w:]+(?:<[\w:,\s]+>)?\s*>"
+TL_ACCESS = r"\.(?:with|set|get|replace|take|with_borrow|with_borrow_mut)\("
+AT_RMW = r"\.(?:fetch_update|fetch_add|fetch_sub|fetch_xor|fetch_or|fetch_and|fetch_nand|fetch_max|fetch_min|swap)\("
+AT_CAS = r"\.compare_exchange(?:_weak)?\("
+AT_LOAD = r"\.load\("
 
 
-def scan_shared_state(repo, generator_file, generator_region):
-    """Every .rs of the treap crate, of rlib_rand and of the crates they depend on: any process-wide mutable state
-    besides the whitelisted generator declaration?  -> (problems, files scanned)"""
-    problems, files = [], []
+def collect_items(repo):
+    """every .rs under src/ of the treap crate, rlib_rand and the crates they reach -> [(relpath, code, items)], problems"""
+    out, problems = [], []
     for crate in crate_closure(repo):
         src = os.path.join(repo, crate, "src")
         for dirpath, _dirs, names in os.walk(src):
             for fn in sorted(names):
-                if not fn.endswith(".rs"):
+                if fn.endswith(".rs"):
+                    path = os.path.join(dirpath, fn)
+                    rel = os.path.relpath(path, repo)
+                    try:
+                        code = preprocess(open(path).read())
+                    except OSError as e:
+                        problems.append(f"{rel}: not readable: {e}")
+                        continue
+                    out.append((rel, code, split_items(code)))
+    return out, problems
+
+
+def decide_discipline(files):
+    """Per item: `const`s, type aliases, enums/structs/traits/impls/fns without `static`/`unsafe` are irrelevant wherever they
+    stand.  Only `static` items (also inside `thread_local!` and inside function bodies) and `unsafe` decide.
+    -> info (discipline, declaration, access, name, file, decl_norm, body_norm, consts, aliases, bits), problems"""
+    problems = []
+    statics = []          # dicts: name, ty, init, mut, tl, file, text
+    consts, aliases = {}, {}
+    info = {"discipline": "unknown", "declaration": "", "access": "", "seed": None, "bits": None}
+    for rel, code, items in files:
+        for it in items:
+            t, k = it["text"], it["kind"]
+            if k == "const":
+                m = re.match(r"(?:pub(?:\s*\([^)]*\))?\s+)?const\s+(\w+)\s*:\s*[\w:]+\s*=\s*" + INT + r"\s*;", t)
+                if m:
+                    consts[m.group(1)] = parse_int(m.group(2))
+            elif k == "type":
+                m = re.match(r"(?:pub(?:\s*\([^)]*\))?\s+)?type\s+(\w+)\s*=\s*(.*?)\s*;", t, re.S)
+                if m:
+                    aliases[m.group(1)] = norm(m.group(2))
+            elif k == "use":
+                m = re.search(r"\bas\s+(\w+)", t)
+                if m and re.fullmatch(WATCHED + r"|Rng|Priority", m.group(1)):
+                    problems.append(f"{rel}: import renames something to `{m.group(1)}`: `{norm(t)}`")
+            elif k in ("unsafe-item", "extern"):
+                problems.append(f"{rel}: `{norm(t)[:80]}`")
+            if k in ("struct", "enum", "union", "trait", "type", "fn", "mod", "macro_rules!") and re.fullmatch(WATCHED, it["name"] or ""):
+                problems.append(f"{rel}: local definition named `{it['name']}` shadows a std synchronisation type")
+            # statics declared by this item
+            if k == "static":
+                m = STATIC_RX.match(t.strip())
+                if not m:
+                    problems.append(f"{rel}: static item not parsed: `{norm(t)[:100]}`")
                     continue
-                path = os.path.join(dirpath, fn)
-                rel = os.path.relpath(path, repo)
-                files.append(rel)
+                if not m.group(1) and re.fullmatch(PLAIN_TY, m.group(3).strip()):
+                    continue                   # constant table
+                statics.append({"name": m.group(2), "ty": norm(m.group(3)), "init": norm(m.group(4)), "mut": bool(m.group(1)),
+                                "tl": False, "file": rel, "text": norm(t)})
+            elif k == "thread_local!":
+                inner = t[t.index("{") + 1:t.rindex("}")] if "{" in t else ""
+                parts, depth, cur = [], 0, ""
+                for ch in inner:
+                    if ch in "([{":
+                        depth += 1
+                    elif ch in ")]}":
+                        depth -= 1
+                    if ch == ";" and depth == 0:
+                        parts.append(cur)
+                        cur = ""
+                    else:
+                        cur += ch
+                if cur.strip():
+                    parts.append(cur)
+                for part in parts:
+                    part = re.sub(r"#\[[^\]]*\]", " ", part).strip()
+                    if not part:
+                        continue
+                    m = STATIC_RX.match(part + ";")
+                    if not m or m.group(1):
+                        problems.append(f"{rel}: thread_local! entry not parsed: `{norm(part)[:100]}`")
+                        continue
+                    statics.append({"name": m.group(2), "ty": norm(m.group(3)), "init": norm(m.group(4)), "mut": False, "tl": True,
+                                    "file": rel, "text": norm(part) + ";"})
+            else:
+                for m in re.finditer(r"(?<!')\bstatic\b", t):
+                    snippet = t[m.start():]
+                    end = snippet.find(";")
+                    snippet = snippet[:end + 1] if end >= 0 else snippet[:160]
+                    mm = STATIC_RX.match(snippet.strip())
+                    if mm and not mm.group(1) and re.fullmatch(PLAIN_TY, mm.group(3).strip()):
+                        continue
+                    statics.append({"name": mm.group(2) if mm else "?", "ty": norm(mm.group(3)) if mm else "?", "init": norm(mm.group(4)) if mm else "?",
+                                    "mut": bool(mm and mm.group(1)) or bool(re.match(r"static\s+mut\b", snippet)), "tl": False, "nested": True,
+                                    "file": rel, "text": norm(snippet)[:160]})
+    pb = [b for b in (re.fullmatch(r"u(8|16|32|64)", aliases.get("Priority", "")),) if b]
+    info["bits"] = int(pb[0].group(1)) if pb else None
+    info["consts"], info["aliases"] = consts, aliases
+
+    if len(statics) != 1:
+        if not statics:
+            problems.append("no process-wide or thread-local state found at all: the priority source is not recognised")
+        else:
+            problems.append("more than one stateful `static` in the crates the treap is built from ("
+                            + "; ".join(f"{x['file']}: {x['text'][:70]}" for x in statics[:4])
+                            + "): only a single priority-generator cell is covered by the model")
+        if statics:
+            info["declaration"] = " | ".join(x["text"][:120] for x in statics[:3])
+        return info, problems, None
+    st = statics[0]
+    name = st["name"]
+    info["declaration"] = ("thread_local!{" + st["text"] + "}") if st["tl"] else st["text"]
+    info["name"], info["file"], info["decl_norm"] = name, st["file"], st["text"]
+
+    # every mention of the cell outside its declaration, with the item it stands in
+    uses = []
+    for rel, code, items in files:
+        for it in items:
+            nt = norm(it["text"])
+            if it["kind"] in ("static", "thread_local!") and rel == st["file"] and re.search(rf"\bstatic(?: mut)? {re.escape(name)}\b", nt):
+                continue
+            for m in re.finditer(rf"\b{re.escape(name)}\b", nt):
+                uses.append({"file": rel, "item": it, "norm": nt, "after": nt[m.end():m.end() + 40]})
+    user_items = {id(u["item"]) for u in uses}
+    body = ""
+    if len(user_items) == 1:
+        it = uses[0]["item"]
+        nt = uses[0]["norm"]
+        fm = re.search(r"\bfn \w+\([^)]*\)(?:->[^{]+)?\{", nt)
+        if it["kind"] == "fn" and fm:
+            body = nt[fm.end():nt.rfind("}")]
+    info["access"] = body[:300] if body else " | ".join((u["norm"][:80]) for u in uses[:2])
+    info["body_norm"] = body
+    racy_fn_text = None
+
+    def all_uses(rx):
+        return bool(uses) and all(re.match(rx, u["after"]) for u in uses)
+
+    disc = "unknown"
+    if st.get("nested"):
+        problems.append(f"{st['file']}: stateful `static` inside a function body: `{st['text'][:100]}`")
+    elif st["mut"]:
+        if (re.fullmatch(SHAPES[0][1], st["text"]) and body and any(re.fullmatch(rx, body) for rx in SHAPES[0][2](re.escape(name)))):
+            disc = "racy"
+            racy_fn_text = uses[0]["item"]["text"]
+        else:
+            problems.append(f"{st['file']}: `static mut {name}` accessed in a way that is not even the plain unsynchronised shape")
+    elif re.search(r"\bunsafe\b", st["init"]):
+        problems.append(f"{st['file']}: initialiser of `{name}` contains `unsafe`")
+    elif st["tl"]:
+        if not re.fullmatch(TL_TY, st["ty"]) or re.search(r"\b(?:Arc|Rc|Mutex|RwLock|Atomic\w*)\b|&|\*", st["ty"]):
+            problems.append(f"{st['file']}: thread_local `{name}` has type `{st['ty']}` (only Cell<_>/RefCell<_> of a plain value are recognised)")
+        elif not all_uses(TL_ACCESS):
+            problems.append(f"{st['file']}: thread_local `{name}` is used other than through with/get/set/replace/take: "
+                            + "; ".join(name + u["after"][:30] for u in uses if not re.match(TL_ACCESS, u["after"]))[:200])
+        else:
+            disc = "threadLocal"
+    elif re.fullmatch(AT_TY, st["ty"]):
+        rmw = [u for u in uses if re.match(AT_RMW, u["after"])]
+        cas = [u for u in uses if re.match(AT_CAS, u["after"])]
+        load = [u for u in uses if re.match(AT_LOAD, u["after"])]
+        if len(uses) == 1 and len(rmw) == 1:
+            disc = "atomicRmw"
+        elif len(cas) == 1 and len(cas) + len(load) == len(uses) and len(user_items) == 1:
+            disc = "atomicRmw"              # load … compare_exchange loop inside one function
+        else:
+            problems.append(f"{st['file']}: atomic `{name}` is not updated by exactly one read-modify-write per draw "
+                            f"({len(uses)} uses: " + "; ".join(name + u["after"][:24] for u in uses[:4]) + ") — load/store pairs lose updates")
+    elif re.fullmatch(MX_TY, st["ty"]):
+        if len(uses) == 1 and re.match(r"\.lock\(\)", uses[0]["after"]):
+            disc = "mutex"
+        else:
+            problems.append(f"{st['file']}: mutex `{name}` is not locked exactly once per draw ({len(uses)} uses: "
+                            + "; ".join(name + u["after"][:24] for u in uses[:4]) + ")")
+    else:
+        problems.append(f"{st['file']}: `static {name}: {st['ty']}` is not a recognised kind of shared cell")
+
+    # `unsafe` and friends anywhere (outside the recognised racy accessor) leave nothing to assume
+    for rel, code, items in files:
+        scan = code.replace(racy_fn_text, " ", 1) if (racy_fn_text and rel == st["file"]) else code
+        if re.search(r"\bunsafe\b", scan):
+            problems.append(f"{rel}: `unsafe` code")
+            if disc != "racy":
+                disc = "unknown"
+        for rx, what in TOKENS_ANYWHERE:
+            if re.search(rx, scan):
+                problems.append(f"{rel}: {what}")
+                disc = "unknown" if disc != "racy" else disc
+    info["discipline"] = disc
+    return info, problems, st
+
+
+def recognise_arithmetic(info, lcg):
+    """Is the generator exactly `Rng` seeded with a literal and stepped by `next_raw` (so that the Lean LCG predicts the
+    stream)?  Uses the exact shapes; constants and aliases of the file are substituted first. -> seed or None, notes"""
+    decl, body, name = info.get("decl_norm"), info.get("body_norm"), info.get("name")
+    if not decl or not body or lcg.get("A") is None or lcg.get("mixmul") is None:
+        return None, ["generator arithmetic not recognised: the Lean stream is not compared (diagnostic only)"]
+    rng_alias = rf"lcg::LinearCongruentialGenerator64<{lcg['A']},{lcg['C']}>"
+
+    def subst(t):
+        for c, v in info.get("consts", {}).items():
+            t = re.sub(rf"\b{re.escape(c)}\b", str(v), t)
+        for al, target in info.get("aliases", {}).items():
+            tt = target
+            for c, v in info.get("consts", {}).items():
+                tt = re.sub(rf"\b{re.escape(c)}\b", str(v), tt)
+            if re.fullmatch(rf"(?:rlib_rand::)?(?:lcg::)?LinearCongruentialGenerator64<{lcg['A']},{lcg['C']}>", tt) and al != "Rng":
+                t = re.sub(rf"\b{re.escape(al)}\b", "Rng", t)
+        return t
+    _ = rng_alias
+    d, b = subst(decl), subst(body)
+    for disc, drx, accs in SHAPES:
+        dm = re.fullmatch(drx, d)
+        if not dm or disc != info["discipline"]:
+            continue
+        for arx in accs(re.escape(name)):
+            am = re.fullmatch(arx, b)
+            if am:
+                if disc == "atomicRmw" and (parse_int(am.group(3)) != lcg["A"] or parse_int(am.group(4)) != lcg["C"]):
+                    return None, ["the fetch_update closure does not step with Rng's multiplier/increment: stream not predicted"]
                 try:
-                    code = strip_rust_comments(open(path).read())
-                except OSError as e:
-                    problems.append(f"{rel}: not readable: {e}")
-                    continue
-                if os.path.abspath(path) == os.path.abspath(generator_file) and generator_region:
-                    code = code.replace(generator_region, " ", 1)
-                code = strip_cfg_test_mods(blank_strings(code))
-                for m in re.finditer(r"(?<!')\bstatic\b(?!\s+mut\b)", code):
-                    item = code[m.start():m.start() + 160]
-                    if not re.match(PLAIN_STATIC, item):
-                        problems.append(f"{rel}: process-wide `static` that is not a plain constant table: `{norm(item.split(';')[0])[:110]}` "
-                                        "(interior mutability / shared state between threads is not covered by the extracted discipline)")
-                for rx, what in SHARED_STATE_TOKENS:
-                    if re.search(rx, code):
-                        problems.append(f"{rel}: {what} outside the whitelisted generator declaration")
-    return problems, files
+                    return parse_int(dm.group(2)), []
+                except ValueError:
+                    return None, ["seed literal not parsed"]
+    return None, ["generator arithmetic not recognised: the Lean stream is not compared (diagnostic only)"]
 
 
 def extract_lcg(repo):
@@ -421,55 +596,33 @@ end Rlib.RngDiscipline
 """
 
 
+
 def extract(repo):
-    problems = []
-    params = {}
-    path = os.path.join(repo, "rlib/treap/src/treap_node.rs")
-    try:
-        src = open(path).read()
-    except OSError as e:
-        src = None
-        problems.append(f"treap_node.rs not readable: {e}")
-    info = {"discipline": "unknown", "declaration": "", "access": "", "seed": None, "bits": None}
-    if src is not None:
-        info, p1 = classify_treap_node(src)
-        problems += p1
+    problems, notes = [], []
+    files, p0 = collect_items(repo)
+    problems += p0
+    info, p1, _st = decide_discipline(files)
+    problems += p1
+    if problems and info["discipline"] in SAFE:
+        info["discipline"] = "unknown"
     lcg, p2 = extract_lcg(repo)
-    problems += p2
-    params.update({"discipline": info["discipline"], "declaration": info["declaration"], "access": info["access"],
-                   "seed": info.get("seed"), "priority_bits": info.get("bits")})
+    notes += p2                      # the arithmetic of rlib_rand is C14's business; here it only decides whether the stream is predicted
+    seed, n2 = recognise_arithmetic(info, lcg if not p2 else {})
+    notes += n2
+    params = {"discipline": info["discipline"], "declaration": info["declaration"], "access": info["access"],
+              "seed": seed, "priority_bits": info.get("bits"), "files_scanned": [f[0] for f in files]}
     params.update(lcg)
-    # side conditions of the model
     for k in ("A", "C", "mixmul", "seed"):
         if params.get(k) is not None and not (0 <= params[k] < 2 ** 64):
-            problems.append(f"side condition: {k} = {params[k]} is not a u64")
+            notes.append(f"{k} = {params[k]} is not a u64")
+            params["seed"] = None
     if params.get("mixshift") is not None and not (0 <= params["mixshift"] < 64):
-        problems.append("side condition: scramble shift >= 64")
-    if info["discipline"] == "atomicRmw" and lcg.get("A") is not None:
-        if info.get("atomic_a") != lcg["A"] or info.get("atomic_c") != lcg["C"]:
-            problems.append("treap_node.rs: the fetch_update closure does not use the multiplier/increment of `Rng` "
-                            "(the atomic state would not follow the generator's transition)")
-            params["discipline"] = info["discipline"] = "unknown"
-    gen_file = os.path.join(repo, "rlib/treap/src/treap_node.rs")
-    p3, scanned = scan_shared_state(repo, gen_file, info.get("region_text", ""))
-    params["files_scanned"] = scanned
-    if p3:
-        problems += p3
-        if info["discipline"] in SAFE:
-            problems.append("process-wide state besides the priority generator: threads operating on their own treaps can interfere "
-                            "through it — the extracted discipline does not cover it, nothing is assumed")
-            info["discipline"] = "unknown"
-    if any("no longer a plain value type" in q for q in p2) and info["discipline"] in SAFE:
-        # the discipline of the cell says nothing if the generator itself keeps state elsewhere
-        problems.append("rand/src/lcg.rs keeps state outside the value (static/unsafe/cell/atomic tokens): the discipline found in "
-                        "treap_node.rs does not cover it — nothing is assumed")
-        params["discipline"] = info["discipline"] = "unknown"
+        params["seed"] = None
     if info["discipline"] == "racy":
-        # recognised, and recognised as the unsynchronised shape: c17 will not compile; say so up front
         problems.append("treap_node.rs: the priority generator is a `static mut` mutated in an unsynchronised `unsafe` block "
                         "(discipline racy): data race as soon as two threads create nodes")
-    params["discipline"] = info["discipline"]
-    params["constants_complete"] = all(params.get(k) is not None for k in ("A", "C", "mixmul", "mixshift", "seed", "priority_bits"))
+    params["constants_complete"] = all(params.get(k) is not None for k in ("A", "C", "mixmul", "mixshift", "seed", "priority_bits")) and not p2
+    params["stream_model"] = "compared" if params["constants_complete"] else "not compared: " + "; ".join(notes)[:300]
     text = render_generated(info)
     old = open(GENERATED).read() if os.path.exists(GENERATED) else None
     if old != text:
@@ -484,11 +637,10 @@ def extract(repo):
 
 def harness_args(params, profile):
     args = ["--disc", params.get("discipline", "unknown")]
-    if all(params.get(k) is not None for k in ("A", "C", "mixmul", "mixshift", "priority_bits")):
+    if params.get("constants_complete"):
         args += ["--A", str(params["A"]), "--C", str(params["C"]), "--mixmul", str(params["mixmul"]), "--mixshift", str(params["mixshift"]),
-                 "--bits", str(params["priority_bits"])]
-        if params.get("seed") is not None:
-            args += ["--rngseed", str(params["seed"])]
+                 "--bits", str(params["priority_bits"]), "--rngseed", str(params["seed"])]
+    # otherwise: no constants -> the case lines carry the block `0 0 0 0 32 0`, both sides print lengths instead of digests
     return args
 
 
